@@ -29,12 +29,12 @@ Your task: make a small source change inside {wt}/kappadata that makes the libra
 {extra}
 How to run things (the python environment is /venv; the installed 'kappadata' points elsewhere, so ALWAYS run from inside the worktree with PYTHONPATH set so that YOUR copy is imported):
     cd {wt} && PYTHONPATH={wt} /venv/bin/python -m pytest -q -p no:cacheprovider --timeout=900 --continue-on-collection-errors 2>&1 | tail -5
-  NOTE: on the unmodified tree 301 tests pass and 78 fail (the 78 failures are pre-existing: most need a torch API that is not available). First run the suite once on the unmodified worktree and save the list of passing tests (e.g. with --junitxml or `-rA`), then after your change verify that the same tests still pass (no previously-passing test may fail). There is no network.
+  NOTE: on the unmodified tree about 376 tests pass and a handful (3-7) fail (pre-existing failures). First run the suite once on the unmodified worktree and save the list of passing tests (e.g. with --junitxml or `-rA`), then after your change verify that the same tests still pass (no previously-passing test may fail). There is no network.
   Verify your script imports your copy: `cd {wt} && PYTHONPATH={wt} /venv/bin/python -c "import kappadata; print(kappadata.__file__)"` must print a path under {wt}.
 
 Deliverables, all in {os.path.dirname(wt)}/ (the parent of the worktree):
   1. patch.diff   - output of `git -C {wt} diff` (only the library change; do not modify or add tests inside the worktree; only files under kappadata/).
-  2. demo.py      - a small standalone program (run as `cd {wt} && PYTHONPATH={wt} /venv/bin/python ../demo.py`) that exits 0 and prints PASS on the unmodified code and exits 1 (assertion failure, printing what differed) with your change applied. It should demonstrate the property violation through the library's public behaviour.
+  2. demo.py      - a small standalone program (run as `cd {wt} && PYTHONPATH={wt} /venv/bin/python ../demo.py`) that exits 0 and prints PASS on the unmodified code and exits 1 (assertion failure, printing what differed) with your change applied. It should demonstrate the property violation through the library's public behaviour. Do NOT hard-code or assert the worktree path inside demo.py (it will later be run against another checkout via PYTHONPATH).
   3. notes.md     - 5-15 lines: what you changed, why it breaks the property, exactly what is needed for it to manifest (inputs / sequence / configuration), why the existing tests do not notice.
 Leave the worktree WITH your change applied when you finish. Confirm in your final answer: number of tests passing before and after, demo result before and after (use `git stash` / `git stash pop` inside the worktree to check the unmodified behaviour), and a one-paragraph description of the change.
 """)
